@@ -23,7 +23,12 @@ ASSUMPTIONS = [
     "leap years); seconds=60 and year 0000 are RFC-valid and attributed to known finding F15",
 ]
 NAMES = ["fmt", "my-format", "a{b}", "100%", "%s", "{0}", "{format}", "é", "", "email", "UUID", "date", " x ",
-         "line\nbreak", "quo'te"]
+         "line\nbreak", "quo'te",
+         # names other vocabularies give a meaning to (OpenAPI, later drafts): here they are names like any
+         # other - nothing is registered under them unless the caller does it
+         "int32", "int64", "float", "double", "regex", "ipv4", "hostname", "uri", "time", "byte", "password"]
+EXTREME_NONSTRINGS = [2 ** 31, -(2 ** 31) - 1, 2 ** 63, 2 ** 64, 10 ** 400, 1e308, -0.0, 2 ** 53 + 1]
+HOSTILE_FORMAT_STRINGS = ["a{4294967295}", "(" * 1200 + ")" * 1200, "[", "(?P<x>a)(?P<x>b)", "\\", "*", "a{2,1}", "(?i)" * 50]
 REQUIRED_COUNTERS = [
     "register", "reregister", "validate.registered.accept", "validate.registered.reject",
     "validate.unregistered.warned", "validate.nonstring", "consultations", "builtin.uuid.accepted",
@@ -163,8 +168,12 @@ def histories(ctx, sut):
                 # long strings: whatever a checker says about them is what counts
                 value = gv.random_string(rng) * rng.choice([700, 5000]) + "x" * rng.choice([0, 4097, 70000])
                 ctx.count("validate.long_string")
-            else:
+            elif roll < 0.8:
                 value = gv.random_value(rng, 1)
+            elif roll < 0.9:
+                value = rng.choice(EXTREME_NONSTRINGS)
+            else:
+                value = rng.choice(HOSTILE_FORMAT_STRINGS)
             if kind.startswith("pn_") and not isinstance(value, str):
                 value = gv.random_string(rng)
             element = make_element(sut, kind, name)
